@@ -358,7 +358,7 @@ pub fn run(run: &mut Run) {
                     None
                 };
                 n4 += 1;
-                let (r, vs) = explore_programs("C02", &setup_s, &programs, if quick { 2 } else { 4 }, 100_000, Duration::from_secs(if quick { 10 } else { 200 }), &judge, false);
+                let (r, vs) = explore_programs("C02", &setup_s, &programs, if quick { 2 } else { 4 }, 100_000, Duration::from_secs(if quick { 10 } else { 60 }), &judge, false);
                 totals = (totals.0 + r.executions, totals.1 + r.points, totals.2 + r.capped as u64);
                 for v in vs {
                     run.violate(v);
